@@ -109,7 +109,7 @@ fn c06_case(t: &Target, w: &dyn AnyWriter, idx: u64, all: Bufs, site: &str, l: &
                 l.violation(format!("size-not-multiple-of-4:{}", site), || t.short(), || format!("calculate_size() = {}", n));
             }
             for cap in buffer_lengths(n, idx, all) {
-                let mut buf = vec![0x5Au8; cap];
+                let mut buf = crate::engine::place::OutBuf::new(cap, |_| 0x5A);
                 l.transitions += 1;
                 l.validated += 1;
                 let r = guard::catch(|| w.write(&mut buf));
@@ -142,7 +142,7 @@ fn c06_case(t: &Target, w: &dyn AnyWriter, idx: u64, all: Bufs, site: &str, l: &
         Err(e) => {
             l.hit("size-err");
             for cap in [0usize, 8, 64, 4096] {
-                let mut buf = vec![0x5Au8; cap];
+                let mut buf = crate::engine::place::OutBuf::new(cap, |_| 0x5A);
                 l.transitions += 1;
                 l.validated += 1;
                 match guard::catch(|| w.write(&mut buf)) {
@@ -207,8 +207,8 @@ fn c17_case(t: &Target, w: &dyn AnyWriter, idx: u64, all: Bufs, site: &str, l: &
         if all != Bufs::Exact || *n <= 256 {
             for extra in [0usize, 4, 12] {
                 let cap = *n + extra;
-                let mut a: Vec<u8> = (0..cap).map(pat_a).collect();
-                let mut b: Vec<u8> = (0..cap).map(pat_b).collect();
+                let mut a = crate::engine::place::OutBuf::new(cap, pat_a);
+                let mut b = crate::engine::place::OutBuf::new(cap, pat_b);
                 let ra = guard::catch(|| w.write_unchecked(&mut a));
                 let rb = guard::catch(|| w.write_unchecked(&mut b));
                 match (ra, rb) {
@@ -240,8 +240,8 @@ fn c17_case(t: &Target, w: &dyn AnyWriter, idx: u64, all: Bufs, site: &str, l: &
         }
     }
     for cap in caps {
-        let mut a: Vec<u8> = (0..cap).map(pat_a).collect();
-        let mut b: Vec<u8> = (0..cap).map(pat_b).collect();
+        let mut a = crate::engine::place::OutBuf::new(cap, pat_a);
+        let mut b = crate::engine::place::OutBuf::new(cap, pat_b);
         l.transitions += 2;
         l.validated += 1;
         let ra = match guard::catch(|| w.write(&mut a)) {
@@ -335,7 +335,7 @@ fn c07_case(t: &Target, w: &dyn AnyWriter, site: &str, l: &mut Local) {
             return;
         }
     };
-    let mut buf = vec![0xA5u8; n];
+    let mut buf = crate::engine::place::OutBuf::new(n, |_| 0xA5);
     l.transitions += 1;
     let m = match guard::catch(|| w.write(&mut buf)) {
         // the image is what was written, whatever size was announced: a writer that announces more than it writes
